@@ -2,6 +2,7 @@
 package c12
 
 import (
+	"slices"
 	"bytes"
 	"crypto/sha1"
 	"fmt"
@@ -80,8 +81,13 @@ func honestBlock(info []byte, i int) []byte {
 	return info[off:min(off+blk, len(info))]
 }
 
+// advertisements (have / have-all / bitfield / don't-have, in range or not)
+// that some peer sends just before the metadata completes; set per case
+var transitAdverts []protocol.Message
+
 func run(sp infoSpec, npeers int, votes []uint32, steps []step, opt ...bool) (fail string, labels map[string]bool, hist []string) {
 	viaCongested := len(opt) > 0 && opt[0]
+	transit := transitAdverts
 	labels = map[string]bool{}
 	info := buildInfo(sp)
 	size := uint32(len(info))
@@ -336,8 +342,36 @@ func run(sp infoSpec, npeers int, votes []uint32, steps []step, opt ...bool) (fa
 			}
 		}
 		for i := 0; i < count && !t.InfoComplete(); i++ {
+			injected := false
+			if len(transit) > 0 && tor.VerifInfoBitmapCount(t) == count-1 {
+				// one block short of complete: other peers' advertisements are handled
+				// by their goroutines now (they do not know the piece count yet) and
+				// reach the torrent after the block that completes the metadata
+				var adv *pump.PP
+				for _, pp := range w.Peers {
+					if pp.Alive && !slices.Contains(honest, pp) {
+						adv = pp
+						break
+					}
+				}
+				if adv != nil {
+					for _, m := range transit {
+						hist = append(hist, fmt.Sprintf("in-transit:%T%+v", m, m))
+						if _, pv := adv.Msg(m); pv != "" {
+							return pv + describe(), labels, hist
+						}
+					}
+					injected = true
+					w.ReverseCollect = true
+				}
+				transit = nil
+			}
 			if f := deliver(honest[i%len(honest)], uint32(i), size, honestBlock(info, i)); f != "" {
 				return f, labels, hist
+			}
+			w.ReverseCollect = false
+			if injected && t.InfoComplete() {
+				labels["advertisements-in-transit-across-completion"] = true
 			}
 		}
 		if f := invariant(fmt.Sprintf("honest round %d", round)); f != "" {
@@ -432,7 +466,27 @@ func TestC12Metadata(t *testing.T) {
 				steps = append(steps, step{Kind: "disconnect", P: rapid.IntRange(0, 9).Draw(rt, "p")})
 			}
 		}
+		transitAdverts = nil
+		for i, n := 0, rapid.IntRange(0, 3).Draw(rt, "transit"); i < n; i++ {
+			// piece indexes: in range, the piece count, just beyond (large ones are the
+			// business of C05's recorded finding about indexes before metadata)
+			idx := uint32(rapid.SampledFrom([]int{0, sp.npieces - 1, sp.npieces, sp.npieces + 1, sp.npieces + 7, sp.npieces + 64, 2*sp.npieces + 3}).Draw(rt, "advIndex"))
+			switch rapid.IntRange(0, 4).Draw(rt, "advKind") {
+			case 0, 1:
+				transitAdverts = append(transitAdverts, protocol.Have{Index: idx})
+			case 2:
+				transitAdverts = append(transitAdverts, protocol.HaveAll{})
+			case 3:
+				bf := make([]byte, idx/8+1)
+				bf[idx/8] |= 0x80 >> (idx % 8)
+				bf[0] |= 0x80
+				transitAdverts = append(transitAdverts, protocol.Bitfield{Bitfield: bf})
+			default:
+				transitAdverts = append(transitAdverts, protocol.ExtendedDontHave{Subtype: 3, Index: idx})
+			}
+		}
 		fail, labels, _ := run(sp, npeers, votes, steps, rapid.Bool().Draw(rt, "viaCongested"))
+		transitAdverts = nil
 		if fail != "" {
 			rt.Fatalf("%s", fail)
 		}
